@@ -234,13 +234,15 @@ package valid
 //@   ensures [C09 new.empty] result != nil && len(result.nodeMap) == 0 && result.maxSize == ite(len(max) > 0, max[0], 512)
 
 //@ func (*LRUCache).Len
-//@   requires lru.wf(l) && mu.held(addr.rwMu(l)) == 0
+//@   requires lru.wf(l)
+//@   requires [C10 C11 C13 lock.not-held] mu.held(addr.rwMu(l)) == 0
 //@   modifies mu.held(addr.rwMu(l)), mu.acq(addr.rwMu(l))
 //@   ensures [C09 len.count] result == len(l.nodeMap) && result >= 0
 //@   ensures [C10 C11 len.unlocked] mu.held(addr.rwMu(l)) == 0 && mu.acq(addr.rwMu(l)) == old(mu.acq(addr.rwMu(l))) + 1
 
 //@ func (*LRUCache).Load
-//@   requires lru.wf(l) && mu.held(addr.rwMu(l)) == 0
+//@   requires lru.wf(l)
+//@   requires [C10 C11 C13 lock.not-held] mu.held(addr.rwMu(l)) == 0
 //@   requires [C09 C13 key.comparable] comparable(key)
 //@   modifies lst.stamp(l.list), mu.held(addr.rwMu(l)), mu.acq(addr.rwMu(l))
 //@   ensures lru.wf(l)
@@ -253,7 +255,7 @@ package valid
 
 //@ func (*LRUCache).delete
 //@   requires lru.rep(l) && lst.size(l.list) == len(l.nodeMap) && node != nil && lst.mem(l.list, node)
-//@   requires mu.held(addr.rwMu(l)) == 2
+//@   requires [C10 C11 C13 lock.write-held] mu.held(addr.rwMu(l)) == 2
 //@   modifies lst.mem(l.list), lst.size(l.list), l.nodeMap, mapof(l.nodeMap), l.delMapCount, cb.count, cb.key, cb.val
 //@   ensures lru.rep(l) && lst.size(l.list) == len(l.nodeMap) && lst.size(l.list) == old(lst.size(l.list)) - 1
 //@   ensures l.list == old(l.list) && l.maxSize == old(l.maxSize) && mu.held(addr.rwMu(l)) == 2
@@ -272,7 +274,8 @@ package valid
 //@   loop#1 invariant forall(k Iface :: has(l.nodeMap, k) ==> has(tmp, k) && rng.idx(1, k) < rng.pos(1))
 
 //@ func (*LRUCache).Store
-//@   requires lru.wf(l) && mu.held(addr.rwMu(l)) == 0
+//@   requires lru.wf(l)
+//@   requires [C10 C11 C13 lock.not-held] mu.held(addr.rwMu(l)) == 0
 //@   requires [C09 C13 key.comparable] comparable(key)
 //@   modifies lst.mem(l.list), lst.stamp(l.list), lst.size(l.list), l.nodeMap, mapof(l.nodeMap), l.delMapCount, "H.container/list.Element.Value", cb.count, cb.key, cb.val, mu.held(addr.rwMu(l)), mu.acq(addr.rwMu(l))
 //@   ensures lru.wf(l) && l.list == old(l.list) && l.maxSize == old(l.maxSize)
@@ -289,7 +292,8 @@ package valid
 //@   ensures [C10 C11 store.unlocked] mu.held(addr.rwMu(l)) == 0 && mu.acq(addr.rwMu(l)) == old(mu.acq(addr.rwMu(l))) + 1
 
 //@ func (*LRUCache).Delete
-//@   requires lru.wf(l) && mu.held(addr.rwMu(l)) == 0
+//@   requires lru.wf(l)
+//@   requires [C10 C11 C13 lock.not-held] mu.held(addr.rwMu(l)) == 0
 //@   requires [C09 C13 key.comparable] comparable(key)
 //@   modifies lst.mem(l.list), lst.size(l.list), l.nodeMap, mapof(l.nodeMap), l.delMapCount, cb.count, cb.key, cb.val, mu.held(addr.rwMu(l)), mu.acq(addr.rwMu(l))
 //@   ensures lru.wf(l)
@@ -300,7 +304,8 @@ package valid
 //@   ensures [C10 C11 delete.unlocked] mu.held(addr.rwMu(l)) == 0 && mu.acq(addr.rwMu(l)) == old(mu.acq(addr.rwMu(l))) + 1
 
 //@ func (*LRUCache).Dump
-//@   requires lru.wf(l) && mu.held(addr.rwMu(l)) == 0
+//@   requires lru.wf(l)
+//@   requires [C10 C11 C13 lock.not-held] mu.held(addr.rwMu(l)) == 0
 //@   ensures [C10 C11 dump.unlocked] mu.held(addr.rwMu(l)) == 0
 
 //@ func (*LRUCache).SetDelCallBackFn
